@@ -78,6 +78,10 @@ type sys struct {
 	digestOf   snap
 	haveDigest bool
 
+	probes     []int           // the operations of the alphabet asked around a base-side letter (isProbe)
+	asked      map[string]bool // (state, base-side letter) pairs whose questions were asked in this process
+	pendingErr error           // harness problem met inside a step: the next Reset reports it
+
 	rnd      int
 	lastKey  string
 	lastSnap snap
@@ -345,6 +349,12 @@ func dumpPath(line string) string {
 }
 
 func (s *sys) Reset() error {
+	if err := s.pendingErr; err != nil {
+		s.pendingErr = nil
+
+		return err
+	}
+
 	s.rnd = 0
 	verifrt.SetRandom(func() string { s.rnd++; return strconv.Itoa(s.rnd % 2) })
 
@@ -777,6 +787,10 @@ type detail struct {
 	BaseDiff string `json:"base_before_after_diff,omitempty"`
 	Receiver string `json:"receiver"`
 	ViewNote string `json:"view_state,omitempty"`
+
+	// a question asked around a base-side letter (the operation of the replay is the letter)
+	Question    string `json:"question_asked_through_wrapper,omitempty"`
+	AskedBefore string `json:"answer_before_the_change,omitempty"`
 }
 
 func (s *sys) fileSlot(name string) *slot {
@@ -792,54 +806,72 @@ func (s *sys) fileSlot(name string) *slot {
 
 func skip(why string) bfs.StepResult { return bfs.StepResult{Outcome: "skip/" + why} }
 
+// target is the receiver of an operation on both sides.
+type target struct {
+	recv, twRecv     any // twRecv nil: no twin object
+	helper, twHelper avfs.VFS
+	via              string
+	fsl              *slot // the handle slot, for File methods
+}
+
+// resolve finds the receiver of an operation in the pool; why != "": the slot is empty.
+func (s *sys) resolve(o opDesc) (t target, why string) {
+	switch o.Recv {
+	case "ro":
+		t.recv, t.twRecv, t.helper, t.twHelper, t.via = s.ro, s.tw, s.ro, s.tw, "rofs"
+	case "sub0":
+		if s.sub.real == nil {
+			return t, "no-sub"
+		}
+
+		t.recv, t.helper, t.via = s.sub.real, s.sub.real, "sub"
+
+		if s.sub.twin != nil {
+			t.twRecv, t.twHelper = s.sub.twin, s.sub.twin
+		}
+	default:
+		fsl := s.fileSlot(o.Recv)
+		if fsl.kind == "" {
+			return t, "empty-slot"
+		}
+
+		t.fsl = fsl
+		t.recv, t.via = fsl.real, fsl.kind
+
+		t.helper, t.twHelper = fsl.helper, fsl.twHelper
+		if fsl.from == "sub0" {
+			t.via = "sub-" + fsl.kind
+		}
+
+		if fsl.writable {
+			t.via += "(writable)"
+		}
+
+		if fsl.twin != nil {
+			t.twRecv = fsl.twin
+		}
+	}
+
+	return t, ""
+}
+
 // Step applies one operation through the wrapper side, runs the three oracles
 // and mirrors the call on the twin where that is meaningful.
 func (s *sys) Step(op int) bfs.StepResult {
 	o := s.ops[op]
 	cls := classOf(o)
 
-	// --- resolve receiver on both sides
-	var (
-		recv, twRecv     any
-		helper, twHelper avfs.VFS
-		via              string
-		fsl              *slot
-	)
-
-	switch o.Recv {
-	case "ro":
-		recv, twRecv, helper, twHelper, via = s.ro, s.tw, s.ro, s.tw, "rofs"
-	case "sub0":
-		if s.sub.real == nil {
-			return skip("no-sub")
-		}
-
-		recv, helper, via = s.sub.real, s.sub.real, "sub"
-
-		if s.sub.twin != nil {
-			twRecv, twHelper = s.sub.twin, s.sub.twin
-		}
-	default:
-		fsl = s.fileSlot(o.Recv)
-		if fsl.kind == "" {
-			return skip("empty-slot")
-		}
-
-		recv, via = fsl.real, fsl.kind
-
-		helper, twHelper = fsl.helper, fsl.twHelper
-		if fsl.from == "sub0" {
-			via = "sub-" + fsl.kind
-		}
-
-		if fsl.writable {
-			via += "(writable)"
-		}
-
-		if fsl.twin != nil {
-			twRecv = fsl.twin
-		}
+	if o.Recv == "base" {
+		return s.baseStep(o)
 	}
+
+	// --- resolve receiver on both sides
+	tg, why := s.resolve(o)
+	if why != "" {
+		return skip(why)
+	}
+
+	recv, twRecv, helper, twHelper, via, fsl := tg.recv, tg.twRecv, tg.helper, tg.twHelper, tg.via, tg.fsl
 
 	var idm, twIdm avfs.IdentityMgr
 
